@@ -491,7 +491,11 @@ func callIfaceNative(i *interpreter, fr *frame, meth string, args []value) value
 		switch meth {
 		case "IsRecording":
 			return false
-		case "SpanContext", "TracerProvider":
+		case "TracerProvider", "Tracer":
+			return iface{t: nativeAnyT, v: &spanObj{}}
+		case "Start":
+			return tuple{args[1], iface{t: nativeAnyT, v: &spanObj{}}}
+		case "SpanContext":
 			panic(unmodelled{"span." + meth})
 		}
 		return nil
